@@ -1,6 +1,7 @@
 package checks
 
 import (
+	"encoding/json"
 	"fmt"
 	"reflect"
 	"runtime"
@@ -68,7 +69,8 @@ func init() {
 		Rule: "case = seeded history of 14-40 steps over 4 local features x 1-4 counters x 4 callback functions x 2 peers: register (15% deliberate duplicates), register result callback, arrival {reply|result} x {matching, non-matching, repeated, missing reference} x " +
 			"{own, foreign function} x {wire, direct HandleMessage for the missing reference}; accepted replies carry a full list of 1-3 items or, once the cache of the answering feature holds 2-3 items, every second time a restricted data set (partial list, partial item + selector, delete selector) and the callback must see the data set of that reply; every third acceptable reply for a feature whose cache holds a known full data set REPEATS that data set verbatim (same function, same items; polling unchanged data) for a counter with 1-2 registered callbacks, which must fire exactly once with that data; " +
 			"a third, bystander peer is disconnected/reconnected (or announces the removal of its entity and adds it again) at 8% of the steps (and is disconnected concurrently with every third racing arrival); every third case additionally races registrations against the arrival of a matching message (each followed by a second matching message) and registers 2-6 callbacks for one counter concurrently (different functions and one function value from several goroutines, followed by a matching and a repeated message). " +
-			"A case is non-trivial if at least one callback invocation, one refused duplicate registration (or one concurrent registration duel) and one arrival that must not fire anything were judged; distinct = distinct step-shape sequences (hash; payload values excluded).",
+			"A case is non-trivial if at least one callback invocation, one refused duplicate registration (or one concurrent registration duel) and one arrival that must not fire anything were judged; distinct = distinct step-shape sequences (hash; payload values excluded). " +
+			"blocked: case = 1-3 callbacks for counter N on one feature of which 1-2 do not return (they park on a harness gate), registered in a drawn order, plus callbacks for N on another feature and for another counter; a first matching reply/result; then, while the callbacks are parked, a drawn window of 1-7 operations {second message referencing N (result after reply, reply after result, same kind; same or other identically numbered peer), registration of a further function for N, message for another counter/feature with pending callbacks, unregistered reference}, each judged when the process is quiet except for the parked callbacks; the gate is opened at the logical end, then optionally the reference once more and one matching result for every pending registration. Non-trivial if a callback was parked, at least one window operation was judged and at least one invocation was judged.",
 		Assumptions: []string{
 			"acceptance of a reply is predicted as in C01: the function belongs to the type of the source feature and the payload is a plain full list",
 			"callbacks are keyed by local feature and counter only (the statement names no peer): a message of either peer referencing the counter consumes the registration, and the callback must then see that peer's feature",
@@ -77,10 +79,13 @@ func init() {
 			"the statement names no disconnects: what it promises for a counter holds whatever other peers do, so the disconnect of a bystander peer (one that was sent no request) must not cancel any registration",
 			"for a racing registration both 'invoked by the racing message' and 'left pending, invoked by the follow-up message' are accepted; never twice, never not at all",
 			"quiescence = goroutine count back at the idle baseline (callbacks run on goroutines spawned by the stack); watchdog expiry is inconclusive",
+			"blocked part: what the statement promises does not depend on callbacks returning. While a callback invoked for counter N is parked (it returns only when the harness opens its gate at the logical end of the window): a further message referencing N must not invoke it or its siblings again (the registration was consumed by the first arrival); a function registered for N in that window is a new registration - it must not be refused (different function), is never invoked with the message that arrived before it was registered and is invoked exactly once with the next message referencing N; callbacks due with ANOTHER message (another counter, another feature, or a later message for N that serves a registration made during the window) are due when that message arrives and must have been invoked once the process is quiet (goroutine count = baseline + parked callbacks) or at a standstill (a goroutine dump shows every goroutine of the stack waiting for a lock and the rest parked in the gate, three times in a row: nothing can happen before the gate is opened): they must not wait for the parked callback to return",
+			"blocked part, not judged: WHEN the siblings of a parked callback (the other callbacks of the same message) are invoked - an implementation may invoke the callbacks of one message one after the other; they are owed and must have been invoked exactly once when the gate has been opened and the process is quiet. Registering the parked callback's own function value again during the window is not generated (the statement does not say whether a consumed registration still counts for 'twice'). If the delivery itself does not return while a callback is parked the case is inconclusive (the statement does not demand asynchronous invocation)",
 		},
 		Parts: []rig.Part{
 			{Name: "histories", Cases: pick(300, 6000), Run: c14Case, Procs: 8},
 			{Name: "histories-race", Race: true, Cases: pick(45, 500), Run: func(c *rig.Ctx) { c14Run(c, true) }, Quiet: 120 * time.Second, Procs: 8},
+			{Name: "blocked", Cases: pick(120, 1500), Run: c14BlockedCase, Quiet: 120 * time.Second, Procs: 8},
 		},
 	})
 }
@@ -363,6 +368,7 @@ type c14Arrival struct {
 	foreign bool // reply carrying a function foreign to the source feature's type
 	direct  bool // handed to FeatureLocal.HandleMessage instead of the wire (missing reference only)
 	errNo   int
+	desc    int // results only: resultData.description 0 = present, 1 = absent, 2 = present and empty (the element is optional)
 	n       int // unique payload number
 	// replies only: number of items of a full data set (ids 1..k); variant "" = full data set, or the reply
 	// carries a restricted one: "partial" (one item with identifier id), "partial-sel" (selector id + one item
@@ -385,7 +391,13 @@ func (cw *c14World) srcAddr(a c14Arrival) *model.FeatureAddressType {
 
 func (cw *c14World) cmdOf(a c14Arrival) (model.CmdType, any, bool) {
 	if a.kind == "result" {
-		rd := &model.ResultDataType{ErrorNumber: util.Ptr(model.ErrorNumberType(a.errNo)), Description: util.Ptr(model.DescriptionType(fmt.Sprintf("result %d", a.n)))}
+		rd := &model.ResultDataType{ErrorNumber: util.Ptr(model.ErrorNumberType(a.errNo))}
+		switch a.desc {
+		case 0:
+			rd.Description = util.Ptr(model.DescriptionType(fmt.Sprintf("result %d", a.n)))
+		case 2:
+			rd.Description = util.Ptr(model.DescriptionType(""))
+		}
 		return model.CmdType{ResultData: rd}, rd, true
 	}
 	// every item carries the unique payload number, so that the data of two messages never coincide
@@ -463,6 +475,15 @@ func (cw *c14World) shapeReply(a *c14Arrival) {
 	}
 }
 
+// shapeResult draws the shape of a result: errorNumber 0 (success), a general error number or 7 (command rejected),
+// with a description, without one (the element is optional; the library itself sends error results without it, e.g.
+// NewErrorTypeFromNumber) or with an empty one. Every shape is a result "referencing a request" like any other.
+func (cw *c14World) shapeResult(a *c14Arrival) {
+	r := cw.c.Rand
+	a.errNo = []int{0, 0, 1, 2, 7, 7}[r.Intn(6)]
+	a.desc = []int{0, 1, 1, 2}[r.Intn(4)]
+}
+
 // noteInjected maintains the lower bound of the cache content after an accepted reply was delivered.
 func (cw *c14World) noteInjected(a c14Arrival) {
 	if a.kind != "reply" || a.foreign {
@@ -499,6 +520,15 @@ func (cw *c14World) due(a c14Arrival) (want []c14Inv) {
 	}
 	p := cw.w.Peers[a.peer]
 	what := fmt.Sprintf("ref=%d local=%s from=%s/%s data=%s", *a.ref, cw.feats[a.feat].Address().String(), p.Ski, cw.srcAddr(a).String(), rig.JS(data))
+	if a.kind == "result" {
+		due := "no-response-callback-due"
+		if len(cw.pending[a.feat][*a.ref]) > 0 {
+			due = "response-callbacks-due"
+		}
+		ds := []string{"present", "absent", "empty"}[a.desc%3]
+		cw.c.Seen("result_shapes", fmt.Sprintf("error=%v/description=%s/to=%s/%s/result-callbacks-due=%v", a.errNo != 0, ds, cw.names[a.feat], due, len(cw.results[a.feat]) > 0))
+		cw.c.Count(fmt.Sprintf("results-referencing-a-request:error=%v/description=%s", a.errNo != 0, ds), 1)
+	}
 	for _, rg := range cw.pending[a.feat][*a.ref] {
 		want = append(want, c14Inv{rg.id, what})
 		if rg.acrossDrop {
@@ -555,14 +585,39 @@ func (cw *c14World) inject0(a c14Arrival) {
 		}
 		return
 	}
-	before := p.PanicCount()
-	p.Send(cl, src, dst, false, a.ref, cmd)
-	if p.PanicCount() > before {
-		sig := "arrival/panic"
-		if a.ref == nil {
-			sig = "missing-reference/panic"
-		}
-		cw.viol(sig, "%s", p.Panics[len(p.Panics)-1])
+	// as rig.Peer.Send, but keeping what HandleSpineMesssage returns: the stack recovers panics raised while it
+	// processes a message and reports them as the error "invalid spine message: ..." - for a well-formed datagram
+	// (every one generated here that carries a msgCounterReference) that is a panic on the callback path: the
+	// callbacks of the message are then not served
+	bs, err := json.Marshal(rig.Datagram(cl, src, dst, p.NextCounter(), false, a.ref, cmd))
+	if err != nil {
+		panic("harness: cannot marshal datagram: " + err.Error())
+	}
+	var herr error
+	pan := ""
+	func() {
+		defer func() {
+			if r := recover(); r != nil {
+				buf := make([]byte, 8<<10)
+				buf = buf[:runtime.Stack(buf, false)]
+				pan = fmt.Sprintf("%v @ %s\n%s", r, rig.InnermostSpineFrame(string(buf)), buf)
+			}
+		}()
+		_, herr = p.RD.HandleSpineMesssage(bs)
+	}()
+	sig := "arrival"
+	if a.ref == nil {
+		sig = "missing-reference"
+	}
+	switch {
+	case pan != "":
+		cw.viol(sig+"/panic", "%s: %s", a, pan)
+	case herr != nil && a.ref == nil:
+		// a reply/result without msgCounterReference is malformed; the stack rejects it as a whole (D8: the recover in
+		// HandleSpineMesssage turns the nil dereference in PrintMessageOverview into this error). Nothing is due.
+		cw.c.Count("missing-reference:message-rejected-with-an-error", 1)
+	case herr != nil:
+		cw.viol(sig+"/panic-recovered-by-the-stack", "HandleSpineMesssage returned %q for the well-formed message %s\n%s", herr.Error(), a, bs)
 	}
 }
 
@@ -572,6 +627,9 @@ func (a c14Arrival) String() string {
 		ref = fmt.Sprint(*a.ref)
 	}
 	s := fmt.Sprintf("peer%d %s to %d from [1]/%d ref=%s foreign=%v direct=%v n=%d", a.peer, a.kind, a.feat, a.srcFeat, ref, a.foreign, a.direct, a.n)
+	if a.kind == "result" {
+		s += fmt.Sprintf(" errorNumber=%d description=%s", a.errNo, []string{"present", "ABSENT", "EMPTY"}[a.desc%3])
+	}
 	if a.kind == "reply" {
 		if a.repeat {
 			s += fmt.Sprintf(" full(%d items) REPEATING verbatim the content of the previous full reply of this feature", a.k)
@@ -759,6 +817,7 @@ func c14Run(c *rig.Ctx, racing bool) {
 			a := c14Arrival{peer: r.Intn(2), kind: "reply", n: 1000*cw.nArr + r.Intn(1000), errNo: r.Intn(3)}
 			if r.Intn(100) < 42 {
 				a.kind = "result"
+				cw.shapeResult(&a)
 			}
 			a.feat = pickFeat(a.kind == "reply")
 			switch a.feat {
@@ -834,6 +893,9 @@ func c14Run(c *rig.Ctx, racing bool) {
 				a.ref = util.Ptr(ctrs[r.Intn(len(ctrs))])
 			}
 			cw.shape = append(cw.shape, fmt.Sprintf("%s%d%s%v%v%s%v", a.kind[:3], a.feat, refKind[:3], a.foreign, a.direct, a.variant, a.repeat))
+			if a.kind == "result" {
+				cw.shape = append(cw.shape, fmt.Sprintf("e%vd%d", a.errNo != 0, a.desc))
+			}
 			if a.repeat {
 				c.Count("replies-repeating-the-cached-content-delivered", 1)
 				c.Seen("repeated_content_reply_classes", fmt.Sprintf("items=%d/to=%s/from=[1]/%d/peer%d", a.k, cw.names[a.feat], a.srcFeat, a.peer))
@@ -893,6 +955,7 @@ func c14Run(c *rig.Ctx, racing bool) {
 			case 2:
 				a.srcFeat = 3
 			}
+			cw.shapeResult(&a)
 			want := cw.due(a)
 			cw.logf("final arrival %s -> %d invocations due", a, len(want))
 			cw.inject(a)
@@ -1243,6 +1306,8 @@ func c14Duel(cw *c14World, f int, ctr model.MsgCounterType) bool {
 		}
 		if f < 2 && r.Intn(2) == 0 {
 			a.kind = "reply"
+		} else {
+			cw.shapeResult(&a)
 		}
 		cw.shapeReply(&a)
 		return a
@@ -1367,9 +1432,466 @@ func c14Burst(cw *c14World, f int) bool {
 		case 2:
 			a.srcFeat = 3
 		}
+		cw.shapeResult(&a)
 		want = append(want, cw.due(a)...)
 		cw.inject(a)
 	}
 	cw.logf("BURST settled by one matching result per counter -> %d invocations due", len(want))
 	return cw.settle("after one matching result for each of the concurrently registered counters", "duel", want)
+}
+
+// ---------------------------------------------------------------------------
+// part blocked: callbacks that do not return
+//
+// A response callback is application code: it may take long, or wait for something (typically for the answer to
+// another request). The statement does not make what it promises depend on callbacks returning. In this part 1-2 of
+// the 1-3 callbacks registered for counter N on feature f park on a harness gate (eGate) that the case opens only at
+// the LOGICAL end of its window; nothing is decided by a clock:
+//
+//   1. a matching message (reply or result) referencing N arrives at f; the process is awaited quiet "except for the
+//      parked callbacks" (goroutine count = baseline + callbacks inside the gate). The parked callbacks have logged
+//      their entry. Siblings (other callbacks of the SAME message) that have not been invoked yet are not judged
+//      now - an implementation may invoke the callbacks of one message one after the other - they are owed and
+//      must have been invoked exactly once when the gate has been opened.
+//   2. window, while the callbacks are parked, 2-5 drawn operations, each awaited quiet and judged:
+//      again     a second message referencing N arrives at f (a result following a reply, a reply following a
+//                result, the same kind again; from the same peer or from the other, identically numbered one -
+//                callbacks are keyed by feature and counter only, the existing expectation): the registration was
+//                consumed by the first arrival, so neither the parked callback nor any sibling is invoked a second
+//                time (result callbacks are due as always);
+//      late-reg  AddResponseCallback(N, Y) with a function not registered for N before: must not be refused (it is a
+//                different function); Y was registered after the first response had arrived, so it is never invoked
+//                with THAT message and is due exactly once with the NEXT message referencing N at f (an "again" of
+//                the window, or the final sweep after the gate was opened);
+//      other-ref / other-feat  a message referencing another counter M at f, or N / M at another feature g, where
+//                callbacks are pending: they are due with that message, and must have been invoked when the process
+//                is quiet - a parked callback of another reference or feature must not hold them up (if the count does
+//                not settle because goroutines of the stack wait for a lock that is held on behalf of the parked
+//                callback, the standstill is recognised from goroutine dumps, eQuietOrStuck, and judged likewise);
+//      nothing   a reference nobody registered for: nothing fires.
+//   3. the gate is opened; at quiescence exactly the owed sibling invocations have happened, nothing else.
+//   4. after that every still pending registration is settled by one matching result: exactly once each (a
+//      registration accepted during the window that got lost shows up here).
+//
+// Delivery is guarded: if HandleSpineMesssage does not return while a callback is parked the case is inconclusive
+// (the statement does not say that callbacks are invoked asynchronously).
+
+func c14B0(l *c14Log, reg int, g *eGate) func(api.ResponseMessage) {
+	return func(m api.ResponseMessage) { l.rec(reg, 10, m); g.wait() }
+}
+func c14B1(l *c14Log, reg int, g *eGate) func(api.ResponseMessage) {
+	return func(m api.ResponseMessage) { l.rec(reg, 11, m); g.wait() }
+}
+
+var c14Blk = []func(*c14Log, int, *eGate) func(api.ResponseMessage){c14B0, c14B1}
+
+type c14Blocked struct {
+	cw    *c14World
+	gate  *eGate
+	owed  []c14Inv    // invocations due with the first message that had not happened when the process was quiet
+	fired map[int]int // registration -> invocations seen so far
+}
+
+func (b *c14Blocked) registerBlocker(feat int, ctr model.MsgCounterType, bi int) {
+	cw := b.cw
+	cw.nextReg++
+	rg := &c14Reg{id: cw.nextReg, feat: feat, fn: 10 + bi, ctr: ctr}
+	rg.f = c14Blk[bi](cw.log, rg.id, b.gate)
+	err := cw.feats[feat].AddResponseCallback(ctr, rg.f)
+	cw.c.Events(1)
+	cw.logf("register #%d on %s counter %d function B%d (does not return until the gate is opened) -> err=%v", rg.id, cw.names[feat], ctr, bi, err)
+	if err != nil {
+		cw.viol("register/different-callback-refused", "registration of B%d on %s for counter %d was refused (%v); pending there: %s", bi, cw.names[feat], ctr, err, cw.pendingStr(feat, ctr))
+		return
+	}
+	cw.pending[feat][ctr] = append(cw.pending[feat][ctr], rg)
+}
+
+// deliver injects a under a watchdog. false: the delivery did not return (inconclusive, gate opened).
+func (b *c14Blocked) deliver(a c14Arrival) bool {
+	done := make(chan struct{})
+	go func() { defer close(done); b.cw.inject(a) }()
+	select {
+	case <-done:
+		return true
+	case <-time.After(10 * time.Second):
+		inside := b.gate.inside()
+		b.gate.open()
+		b.cw.c.Inconclusive("the delivery of %s did not return within 10s while %d callbacks were parked", a, inside)
+		<-done
+		return false
+	}
+}
+
+// settle awaits the process quiet except for the parked callbacks and compares the invocations since the last
+// call with want (+ anything still owed). lenient: invocations of want that have not happened are owed as long as
+// a callback is parked (siblings of a parked callback, step 1); otherwise every due invocation must have happened.
+func (b *c14Blocked) settle(where, class string, want []c14Inv, lenient bool) bool {
+	cw := b.cw
+	state, standstill := eQuietOrStuck(cw.baseline, b.gate.inside, 20*time.Second)
+	if state == "" {
+		cw.c.Inconclusive("process not quiet (goroutines %d, baseline %d, parked callbacks %d) after %s", runtime.NumGoroutine(), cw.baseline, b.gate.inside(), where)
+		return false
+	}
+	if state == "stuck" {
+		// not quiet by count, but at a standstill: every goroutine of the stack waits for a lock, the rest is parked in
+		// the gate. Nothing more can happen before the gate is opened: as decidable as quiescence.
+		cw.c.Count("blocked:judged-at-a-standstill(goroutines-of-the-stack-wait-for-locks-while-a-callback-is-parked)", 1)
+		cw.logf("STANDSTILL after %s: %s", where, standstill)
+	}
+	got := cw.log.take()
+	inside := b.gate.inside()
+	cw.c.Events(int64(len(got)) + 1)
+	key := func(x c14Inv) string { return fmt.Sprintf("#%d %s", x.reg, x.what) }
+	wantLeft := append([]c14Inv(nil), want...)
+	var unexpected []c14Inv
+	seenNow := map[int]int{}
+	for _, g := range got {
+		matched := false
+		for i, w := range wantLeft {
+			if key(w) == key(g) {
+				wantLeft = append(wantLeft[:i], wantLeft[i+1:]...)
+				matched = true
+				break
+			}
+		}
+		if !matched {
+			for i, w := range b.owed {
+				if key(w) == key(g) {
+					b.owed = append(b.owed[:i], b.owed[i+1:]...)
+					matched = true
+					cw.c.Count("blocked:owed-sibling-invocations-seen-later", 1)
+					break
+				}
+			}
+		}
+		if !matched {
+			unexpected = append(unexpected, g)
+		}
+		seenNow[g.reg]++
+	}
+	render := func(l []c14Inv) string { return strings.Join(c14Multiset(l), "\n  ") }
+	detail := func() string {
+		return fmt.Sprintf("%s (callbacks parked now: %d):\n expected invocations (%d):\n  %s\n still owed from the first message (%d):\n  %s\n observed invocations (%d):\n  %s",
+			where, inside, len(want), render(want), len(b.owed), render(b.owed), len(got), render(got))
+	}
+	ok := true
+	if len(unexpected) > 0 {
+		x := unexpected[0]
+		dev := "callback-not-due-invoked"
+		if b.fired[x.reg] > 0 || seenNow[x.reg] > 1 {
+			dev = "callback-invoked-more-than-once"
+		} else {
+			for _, w := range append(append([]c14Inv(nil), wantLeft...), b.owed...) {
+				if w.reg == x.reg {
+					dev = "wrong-message-or-feature"
+					hw, hx := w.what, x.what
+					if i := strings.Index(hw, " data="); i >= 0 {
+						hw = hw[:i]
+					}
+					if i := strings.Index(hx, " data="); i >= 0 {
+						hx = hx[:i]
+					}
+					if hw == hx {
+						dev = "data-is-not-the-received-data"
+					}
+				}
+			}
+		}
+		cw.viol(class+"/"+dev, "%s", detail())
+		ok = false
+	}
+	for r, n := range seenNow {
+		b.fired[r] += n
+	}
+	if len(wantLeft) > 0 && ok {
+		switch {
+		case lenient && inside > 0:
+			b.owed = append(b.owed, wantLeft...)
+			cw.c.Count("blocked:sibling-invocations-not-yet-made-while-a-callback-is-parked(owed)", int64(len(wantLeft)))
+		case inside > 0:
+			cw.viol(class+"/due-callback-not-invoked-while-another-callback-is-parked", "%s", detail())
+			ok = false
+		default:
+			cw.viol(class+"/due-callback-not-invoked", "%s", detail())
+			ok = false
+		}
+	}
+	if ok {
+		cw.c.Count("invocations-judged", int64(len(got)))
+		if len(want) == 0 {
+			cw.c.Count("arrivals-that-must-fire-nothing", 1)
+		}
+	}
+	return ok
+}
+
+func c14BlockedCase(c *rig.Ctx) {
+	cw := newC14World(c)
+	b := &c14Blocked{cw: cw, gate: newEGate(90 * time.Second), fired: map[int]int{}}
+	defer cw.w.Close()
+	defer b.gate.open()
+	r := c.Rand
+	var windowOps []string
+	var judgedInWindow, fired int64
+	defer func() {
+		c.Shape(fmt.Sprintf("blocked/%s", c13Hash(cw.shape)))
+		tr := cw.trace
+		if len(tr) > 60 {
+			tr = tr[:60]
+		}
+		c.Sample(map[string]any{"part": "blocked", "window": windowOps, "history": tr})
+		if n := b.gate.expiries(); n > 0 {
+			c.Inconclusive("%d parked callbacks were not released within 90s", n)
+		}
+		if c.Failed() {
+			c.Witness(map[string]any{"part": "blocked", "history": cw.trace})
+			c.Count("cases_with_violations", 1)
+		}
+		c.NonTrivial(b.gate.everParked() > 0 && judgedInWindow > 0 && fired > 0)
+	}()
+	for f := range cw.feats {
+		for k := r.Intn(3); k > 0; k-- {
+			cw.registerResult(f)
+		}
+	}
+	ctrs := []model.MsgCounterType{7, 8, 9, 10}
+	r.Shuffle(len(ctrs), func(i, j int) { ctrs[i], ctrs[j] = ctrs[j], ctrs[i] })
+	N, M := ctrs[0], ctrs[1]
+	f := []int{0, 0, 0, 1, 1, 1, 2, 3}[r.Intn(8)] // replies reach A and B only
+	srcOf := func(feat int) uint { return []uint{1, 2, 3, 0}[feat] }
+	mk := func(kind string, feat int, ref model.MsgCounterType, peer int) c14Arrival {
+		cw.nArr++
+		if feat >= 2 {
+			kind = "result"
+		}
+		a := c14Arrival{peer: peer, kind: kind, feat: feat, srcFeat: srcOf(feat), ref: util.Ptr(ref), n: 1000*cw.nArr + r.Intn(1000), errNo: r.Intn(3)}
+		if kind == "result" {
+			cw.shapeResult(&a)
+		}
+		cw.shapeReply(&a)
+		return a
+	}
+	kindOf := func() string {
+		if r.Intn(2) == 0 {
+			return "result"
+		}
+		return "reply"
+	}
+	// the callbacks for (f, N): 1-3, of which 1-2 park; drawn order
+	k := 1 + r.Intn(3)
+	nb := 1
+	if k > 1 && r.Intn(2) == 0 {
+		nb = 2
+	}
+	order := r.Perm(k)
+	usedFn := map[int]bool{}
+	nextFn := r.Intn(len(c14Fns))
+	freshFn := func() int {
+		for usedFn[nextFn] {
+			nextFn = (nextFn + 1) % len(c14Fns)
+		}
+		usedFn[nextFn] = true
+		return nextFn
+	}
+	bi := 0
+	for _, pos := range order {
+		if pos < nb {
+			cw.shape = append(cw.shape, fmt.Sprintf("regB%d", f))
+			b.registerBlocker(f, N, bi)
+			bi++
+		} else {
+			cw.shape = append(cw.shape, fmt.Sprintf("reg%d", f))
+			cw.register(f, N, freshFn())
+		}
+	}
+	// bystanders of the window: the same counter on another feature, another counter on f, another counter elsewhere
+	g := (f + 1 + r.Intn(3)) % 4
+	type slot struct {
+		feat int
+		ctr  model.MsgCounterType
+	}
+	var others []slot
+	if r.Intn(3) > 0 {
+		for n := 1 + r.Intn(2); n > 0; n-- {
+			cw.register(f, M, (n+r.Intn(2)*2)%len(c14Fns))
+		}
+		others = append(others, slot{f, M})
+		cw.shape = append(cw.shape, "otherref")
+	}
+	if r.Intn(2) == 0 {
+		cw.register(g, N, r.Intn(len(c14Fns)))
+		others = append(others, slot{g, N})
+		cw.shape = append(cw.shape, fmt.Sprintf("samectr%d", g))
+	}
+	if r.Intn(3) == 0 {
+		g2 := (f + 1 + r.Intn(3)) % 4
+		if len(cw.pending[g2][M]) == 0 {
+			cw.register(g2, M, r.Intn(len(c14Fns)))
+			others = append(others, slot{g2, M})
+			cw.shape = append(cw.shape, fmt.Sprintf("otherboth%d", g2))
+		}
+	}
+	if c.Failed() {
+		return
+	}
+
+	// 1. the first matching message: the parked callbacks enter and stay
+	a1 := mk(kindOf(), f, N, r.Intn(2))
+	want := cw.due(a1)
+	cw.shape = append(cw.shape, "first-"+a1.kind)
+	cw.logf("FIRST arrival %s -> %d invocations due, %d of the callbacks will not return before the gate is opened", a1, len(want), nb)
+	if !b.deliver(a1) || !b.settle("after the first message "+a1.String(), "blocked-first-arrival", want, true) {
+		return
+	}
+	fired += int64(len(want))
+	if b.gate.inside() == 0 {
+		cw.viol("blocked-first-arrival/no-callback-entered", "the process is quiet after %s and none of the %d parking callbacks registered for counter %d on %s is inside its invocation", a1, nb, N, cw.names[f])
+		return
+	}
+	c.Count("blocked:windows(a-callback-is-parked)", 1)
+	c.Count("blocked:callbacks-parked", int64(b.gate.inside()))
+
+	// 2. the window
+	ops := []string{"again", "late-reg"}
+	if r.Intn(3) == 0 {
+		ops = []string{ops[r.Intn(2)]} // only one of the two
+	}
+	for n := r.Intn(4); n > 0; n-- {
+		ops = append(ops, []string{"again", "again", "late-reg", "other", "other", "nothing"}[r.Intn(6)])
+	}
+	for range others {
+		if r.Intn(3) > 0 {
+			ops = append(ops, "other")
+		}
+	}
+	r.Shuffle(len(ops), func(i, j int) { ops[i], ops[j] = ops[j], ops[i] })
+	lastKind := a1.kind
+	for _, op := range ops {
+		if c.Failed() {
+			return
+		}
+		switch op {
+		case "again":
+			kind := kindOf()
+			if r.Intn(2) == 0 && f < 2 { // a result following a reply, a reply following a result
+				kind = map[string]string{"reply": "result", "result": "reply"}[lastKind]
+			}
+			peer := a1.peer
+			cross := r.Intn(2) == 0
+			if cross {
+				peer = 1 - peer
+			}
+			a := mk(kind, f, N, peer)
+			lastKind = a.kind
+			want := cw.due(a)
+			cw.shape = append(cw.shape, fmt.Sprintf("again-%s-%v-%d", a.kind, cross, len(want)))
+			windowOps = append(windowOps, fmt.Sprintf("again(%s, other peer=%v)", a.kind, cross))
+			cw.logf("WINDOW repeated reference: %s -> %d invocations due (%d callbacks parked)", a, len(want), b.gate.inside())
+			lateDue := len(want)
+			if a.kind == "result" {
+				lateDue -= len(cw.results[f])
+			}
+			c.Seen("blocked_repeated_reference_classes", fmt.Sprintf("first=%s/second=%s/other-peer=%v/to=%s/late-registrations-due=%d", a1.kind, a.kind, cross, cw.names[f], lateDue))
+			if !b.deliver(a) || !b.settle("after the repeated reference "+a.String(), "blocked-repeated-reference", want, false) {
+				return
+			}
+			fired += int64(len(want))
+			c.Count("blocked:repeated-references-judged-while-a-callback-is-parked", 1)
+			judgedInWindow++
+		case "late-reg":
+			if len(usedFn) >= len(c14Fns) {
+				continue
+			}
+			cw.shape = append(cw.shape, "late-reg")
+			windowOps = append(windowOps, "late-reg")
+			cw.logf("WINDOW registration for counter %d on %s while %d callbacks invoked for it are parked:", N, cw.names[f], b.gate.inside())
+			cw.register(f, N, freshFn())
+			c.Count("blocked:registrations-for-the-counter-while-its-callback-is-parked", 1)
+			if !b.settle("after a registration during the window", "blocked-late-registration", nil, false) {
+				return
+			}
+			judgedInWindow++
+		case "other":
+			if len(others) == 0 {
+				continue
+			}
+			s := others[r.Intn(len(others))]
+			if len(cw.pending[s.feat][s.ctr]) == 0 {
+				continue
+			}
+			a := mk(kindOf(), s.feat, s.ctr, r.Intn(2))
+			want := cw.due(a)
+			cw.shape = append(cw.shape, fmt.Sprintf("other-%s-%v-%v", a.kind, s.feat == f, s.ctr == N))
+			windowOps = append(windowOps, fmt.Sprintf("other(%s to %s counter %d)", a.kind, cw.names[s.feat], s.ctr))
+			cw.logf("WINDOW other reference/feature: %s -> %d invocations due (%d callbacks parked)", a, len(want), b.gate.inside())
+			c.Seen("blocked_other_classes", fmt.Sprintf("%s/same-feature=%v/same-counter=%v", a.kind, s.feat == f, s.ctr == N))
+			if !b.deliver(a) || !b.settle("after "+a.String(), "blocked-other-reference", want, false) {
+				return
+			}
+			fired += int64(len(want))
+			c.Count("blocked:callbacks-of-other-references-served-while-a-callback-is-parked", int64(len(want)))
+			judgedInWindow++
+		default:
+			a := mk(kindOf(), f, 99, r.Intn(2))
+			want := cw.due(a)
+			cw.shape = append(cw.shape, "nothing-"+a.kind)
+			windowOps = append(windowOps, "unregistered reference")
+			cw.logf("WINDOW unregistered reference: %s -> %d invocations due", a, len(want))
+			if !b.deliver(a) || !b.settle("after "+a.String(), "blocked-non-matching", want, false) {
+				return
+			}
+			judgedInWindow++
+		}
+	}
+	if c.Failed() {
+		return
+	}
+
+	// 3. the logical end of the window: the gate is opened; the owed siblings (if any) run now, nothing else
+	cw.logf("GATE OPENED (%d callbacks parked, %d sibling invocations owed)", b.gate.inside(), len(b.owed))
+	b.gate.open()
+	if !b.settle("after the gate was opened", "blocked-release", nil, false) {
+		return
+	}
+	if len(b.owed) > 0 {
+		cw.viol("blocked-release/due-callback-not-invoked", "the gate is open and the process is quiet; %d invocations due with the first message never happened:\n  %s", len(b.owed), strings.Join(c14Multiset(b.owed), "\n  "))
+		return
+	}
+	// 4. after the window: sometimes the reference once more, then every pending registration is settled
+	if r.Intn(2) == 0 {
+		a := mk(kindOf(), f, N, r.Intn(2))
+		want := cw.due(a)
+		cw.shape = append(cw.shape, fmt.Sprintf("after-%s-%d", a.kind, len(want)))
+		cw.logf("AFTER the window: %s -> %d invocations due", a, len(want))
+		if !b.deliver(a) || !b.settle("after the window: "+a.String(), "blocked-after-window", want, false) {
+			return
+		}
+		fired += int64(len(want))
+	}
+	for ft := range cw.feats {
+		var cts []model.MsgCounterType
+		for ct := range cw.pending[ft] {
+			cts = append(cts, ct)
+		}
+		sort.Slice(cts, func(i, j int) bool { return cts[i] < cts[j] })
+		for _, ct := range cts {
+			if c.Failed() {
+				return
+			}
+			a := mk("result", ft, ct, r.Intn(2))
+			want := cw.due(a)
+			late := ft == f && ct == N
+			cw.logf("final arrival %s -> %d invocations due", a, len(want))
+			class := "blocked-final"
+			if late {
+				class = "blocked-final-late-registration"
+				c.Count("blocked:late-registrations-settled-after-the-window", int64(len(want)-len(cw.results[ft])))
+			}
+			if !b.deliver(a) || !b.settle("after final "+a.String(), class, want, false) {
+				return
+			}
+			fired += int64(len(want))
+		}
+	}
 }
